@@ -516,9 +516,13 @@ fn gen_regs(rng: &mut Rng, cfg: &GenCfg, k: &Knobs, resmap: &[RKey], budget: &mu
             // what the bulky members mostly do with the other resources: the first writes and the
             // second reads, or all of them read (read lists spill), or all write (write lists spill)
             let flavour = rng.below(3);
+            let first_reads = rng.chance(1, 3);
             for j in 0..n {
                 let nm = gen_name(rng, &mut names, k);
-                let (mut reads, mut writes) = if j % 3 == 2 && rng.chance(1, 2) { (vec![x], vec![]) } else { (vec![], vec![x]) };
+                // who reads and who writes the contested resource: usually writers with a reader
+                // now and then, sometimes a group that at first only reads it
+                let reads_x = if first_reads { j == 0 || (j >= 2 && rng.chance(1, 3)) } else { j % 3 == 2 && rng.chance(1, 2) };
+                let (mut reads, mut writes) = if reads_x { (vec![x], vec![]) } else { (vec![], vec![x]) };
                 if bulky && j < 3 {
                     // members with long lists of their own: the group's accumulated lists spill
                     let mostly_writes = match flavour {
